@@ -401,6 +401,7 @@ func init() {
 		ruleFormatData(c, "FORMAT-DATA", p.ModulePkgs())
 		ruleNilBreak(c, "NIL-ELEMENT-BREAK", p.ModulePkgs())
 		ruleWalkCut(c, "WALK-CUT", p.ModulePkgs(), 0)
+		ruleErrPathUnseen(c, "ERR-PATH-UNSEEN", p.ModulePkgs())
 		ruleMarkBeforeStateTest(c, "MARK-BEFORE-STATE-TEST", p.ModulePkgs())
 		for _, o := range c.Obls {
 			fmt.Printf("%s\t%s\t%s\t%v\t%s\n", o.Pos, o.Rule, o.Instance, o.OK, short(o.Msg, 160))
